@@ -362,4 +362,139 @@ theorem processNode_override_replaces_partial (c : Cfg) (hi : c.opts.skipInterpo
   subst heq
   exact ⟨r', hu, CV.C04.docStep_override_replaces a es k x r' ht hnd hmem hu, hr⟩
 
+/-! ## Round 6 — the remaining stages add no top-level key, so a `!reset` key stays out of the returned model -/
+
+theorem erase_keys_sub (k0 : String) : ∀ (kvs : Val.KVs) (k : String), k ∈ Val.keys (Val.erase k0 kvs) → k ∈ Val.keys kvs
+  | [], _, h => by simp [Val.erase, Val.keys] at h
+  | (k', v') :: r, k, h => by
+    simp only [Val.erase] at h
+    split at h
+    · have := erase_keys_sub k0 r k h
+      simp only [Val.keys, List.map_cons, List.mem_cons] at this ⊢
+      exact Or.inr this
+    · simp only [Val.keys, List.map_cons, List.mem_cons] at h ⊢
+      rcases h with h | h
+      · exact Or.inl h
+      · exact Or.inr (erase_keys_sub k0 r k h)
+
+theorem schemaStage_top_keys (o : Opts) (u : Val.KVs) (d : Val) (h : schemaStage o (.map u) = .ok d) :
+    ∃ kvs, d = .map kvs ∧ ∀ k, k ∈ Val.keys kvs → k ∈ Val.keys u := by
+  unfold schemaStage at h
+  split at h
+  · cases h; exact ⟨u, rfl, fun _ hk => hk⟩
+  · split at h
+    · simp only [Out.ok.injEq] at h
+      subst h
+      exact ⟨_, rfl, erase_keys_sub "version" u⟩
+    · cases h
+
+theorem transformKVs_keys (ign : Bool) (p : TPath) : ∀ (m r : Val.KVs),
+    Short.transformKVs ign p m = .ok r → Val.keys r = Val.keys m
+  | [], r, h => by simp only [Short.transformKVs, Short.Out.ok.injEq] at h; subst h; rfl
+  | (k, e) :: m, r, h => by
+    simp only [Short.transformKVs] at h
+    split at h
+    · split at h
+      · rename_i r' hr
+        simp only [Short.Out.ok.injEq] at h
+        subst h
+        simp only [Val.keys, List.map_cons, List.cons.injEq, true_and]
+        exact transformKVs_keys ign p m r' hr
+      · cases h
+      · cases h
+    · cases h
+    · cases h
+
+theorem transformers_root : TPath.firstMatch CV.Gen.transformers TPath.root = none := by decide
+
+theorem canonical_top_keys (ign : Bool) (kvs : Val.KVs) (d : Val) (h : Short.canonical ign (.map kvs) = .ok d) :
+    ∃ r, d = .map r ∧ Val.keys r = Val.keys kvs := by
+  simp only [Short.canonical, Short.transform, transformers_root, Short.recursesOnMap, Short.postMap, Short.bindOut] at h
+  simp only [Bool.or_eq_true, decide_eq_true_eq, true_or, if_true] at h
+  cases ht : Short.transformKVs ign TPath.root kvs with
+  | ok r =>
+    rw [ht] at h
+    simp at h
+    exact ⟨r, h.symm, transformKVs_keys ign _ kvs r ht⟩
+  | err e => rw [ht] at h; simp at h
+  | panic s => rw [ht] at h; simp at h
+
+theorem toKVs_keys : ∀ m : List (String × C01.GoVal), (toKVs m).map Prod.fst = m.map Prod.fst
+  | [] => by simp [toKVs]
+  | (k, v) :: r => by simp [toKVs, toKVs_keys r]
+
+theorem ofKVs_keys : ∀ m : Val.KVs, (ofKVs m).map Prod.fst = m.map Prod.fst
+  | [] => by simp [ofKVs]
+  | (k, v) :: r => by simp [ofKVs, ofKVs_keys r]
+
+theorem omitKVs_keys_sub (pats : List (List String)) (p : TPath) : ∀ (m : List (String × C01.GoVal)) (k : String),
+    k ∈ (C01.omitKVs pats m p).map Prod.fst → k ∈ m.map Prod.fst
+  | [], _, h => by simp [C01.omitKVs] at h
+  | (k', v) :: r, k, h => by
+    simp only [C01.omitKVs] at h
+    split at h
+    · simp only [List.map_cons, List.mem_cons]
+      exact Or.inr (omitKVs_keys_sub pats p r k h)
+    · simp only [List.map_cons, List.mem_cons] at h ⊢
+      rcases h with h | h
+      · exact Or.inl h
+      · exact Or.inr (omitKVs_keys_sub pats p r k h)
+
+theorem omitEmpty_top_keys (pats : List (List String)) (kvs : Val.KVs) (d : Val) (h : omitEmpty pats (.map kvs) = .ok d) :
+    ∃ r, d = .map r ∧ ∀ k, k ∈ Val.keys r → k ∈ Val.keys kvs := by
+  simp only [omitEmpty, C01.omitEmptyTop, C01.omitEmpty, Out.ok.injEq] at h
+  subst h
+  refine ⟨_, rfl, fun k hk => ?_⟩
+  simp only [Val.keys, toKVs_keys] at hk
+  have := omitKVs_keys_sub pats TPath.root _ k hk
+  simpa [Val.keys, ofKVs_keys] using this
+
+/-- **schema validation, canonicalisation, omit-empty and the second unicity pass add no top-level key** -/
+theorem restStages_no_new_top_key (c : Cfg) (u : Val.KVs) (r : Val) (h : restStages c (.map u) = .ok r) :
+    ∃ kvs, r = .map kvs ∧ ∀ k, k ∈ Val.keys kvs → k ∈ Val.keys u := by
+  unfold restStages at h
+  obtain ⟨d1, h1, h⟩ := pbind_ok h
+  obtain ⟨d2, h2, h⟩ := pbind_ok h
+  obtain ⟨d3, h3, h⟩ := pbind_ok h
+  obtain ⟨k1, rfl, s1⟩ := schemaStage_top_keys c.opts u d1 h1
+  have h2' : Short.canonical c.opts.skipInterpolation (.map k1) = .ok d2 := by
+    cases hc : Short.canonical c.opts.skipInterpolation (.map k1) <;> simp_all [ofShort]
+  obtain ⟨k2, rfl, s2⟩ := canonical_top_keys _ k1 d2 h2'
+  obtain ⟨k3, rfl, s3⟩ := omitEmpty_top_keys _ k2 d3 h3
+  have h4 := ofMerge_ok h
+  simp only [Unicity.enforceTop, Unicity.enforce] at h4
+  obtain ⟨m, hm, h4⟩ := CV.Unicity.out_bind_ok h4
+  simp only [Merge.Out.ok.injEq] at h4
+  subst h4
+  refine ⟨m, rfl, fun k hk => ?_⟩
+  rw [CV.C04.enforceKVs_keys _ _ _ hm] at hk
+  exact s1 k (s2 ▸ s3 k hk)
+
+/-- **`!reset` on a top-level entry removes it from the model the composed step returns** — tag resolution, `Apply`,
+merge, unicity, schema validation, canonicalisation, omit-empty, unicity: whatever the earlier files held at `k`,
+the returned model has no `k` (interpolation and extends off) -/
+theorem processNode_reset_removes (c : Cfg) (hi : c.opts.skipInterpolation = true) (he : c.opts.skipExtends = true)
+    (a : Val.KVs) (es : List (String × Reset.YNode)) (k : String) (x : Reset.YNode) (r : Val)
+    (ht : x.tag = .reset) (hnd : (es.map Prod.fst).Nodup) (hmem : (k, x) ∈ es)
+    (h : processNode c (.map a) (.map .none es) = .ok r) : ∃ kvs, r = .map kvs ∧ Val.lookup k kvs = none := by
+  obtain ⟨u, _, hk, hr⟩ := processNode_reset_removes_partial c hi he a es k x r ht hnd hmem h
+  obtain ⟨kvs, rfl, hs⟩ := restStages_no_new_top_key c u _ hr
+  refine ⟨kvs, rfl, ?_⟩
+  rw [CV.Merge.lookup_eq_none_iff] at hk ⊢
+  exact fun hin => hk (hs k hin)
+
+/-- non-vacuity of the hypotheses of `processNode_reset_removes` / `processNode_refines_docStep`: a configuration with
+interpolation, extends and validation off, a base model with `services` and `volumes`, a document that resets
+`volumes` — the composed step succeeds and the returned model has no `volumes` -/
+def exCfg : Cfg :=
+  { opts := { skipInterpolation := true, skipValidation := true, skipExtends := true }
+    interp := { table := [], fp := { f64 := fun _ => none, f32 := fun _ => none }, env := fun _ => none }
+    paths := { wd := [], home := none }
+    env := [], projectName := "p", clean := id, omitPats := [] }
+
+example : processNode exCfg
+    (.map [("services", .map [("web", .map [("image", .str "nginx")])]), ("volumes", .map [("data", .map [])])])
+    (.map .none [("volumes", .scalar .reset .null), ("services", .map .none [("web", .map .none [("command", .seq .override [.scalar .none (.str "run")])])])])
+    = .ok (.map [("services", .map [("web", .map [("image", .str "nginx"), ("command", .seq [.str "run"])])])]) := by rfl
+
 end CV.C04.Whole
